@@ -99,6 +99,7 @@ def make_device(spec: dict):
         interaction_coeff_xy=3700.0,
         supports_slm_mask=True,
         max_sequence_duration=spec.get("max_seq"),
+        max_layout_filling=spec.get("max_layout_filling", 1.0),
         reusable_channels=spec.get("reusable", True),
         channel_objects=chans,
         dmm_objects=(DMM(**dmm_kw), DMM(**dmm_kw)),
